@@ -107,6 +107,10 @@ def sanitize_defaults(recipe):
 
 @st.composite
 def cases(draw):
+    if draw(st.integers(0, 9)) == 0:
+        recipe, fam_values = draw(R.inheritance_family())
+        if recipe["kind"] == "Object":
+            return {"mode": "dsl", "recipe": recipe, "values": fam_values, "excluded": 0, "pipeline": "plain"}
     recipe = draw(R.recipes(CFG, kinds=["Object"]))
     excluded = [0]
     if findings.is_open(PID, "pyname-key-collision"):
